@@ -661,8 +661,16 @@ func cmdReplay(e *environ, spec *propSpec, path string) int {
 		return 0
 	}
 	fmt.Printf("reproduced: %s\n%s\n", rec.signature(), rec.Msg)
-	for _, l := range rec.Log {
-		fmt.Println("  ", l)
+	if os.Getenv("VCHECK_LOG") != "" {
+		for _, l := range rec.Log {
+			fmt.Println("  ", l)
+		}
+	}
+	if tr, ok := rec.Notes["sample"].([]any); ok {
+		fmt.Println("trace of the replayed run:")
+		for _, l := range tr {
+			fmt.Println("  ", l)
+		}
 	}
 	if rec.signature() != rp.Signature {
 		fmt.Printf("note: recorded signature was %s\n", rp.Signature)
